@@ -17,6 +17,7 @@ const (
 	cbKeyCompare
 	cbRefs
 	cbKeyCompareNil
+	cbPadded // NOT neutral in the property's sense: stores one pad byte per value
 )
 
 func vNeutralCallbacks(mask int) StoreCallbacks {
@@ -61,6 +62,23 @@ func vNeutralCallbacks(mask int) StoreCallbacks {
 			return func(a, b []byte) int { return bytes.Compare(a, b) }
 		}
 	}
+	if mask&cbPadded != 0 {
+		// slab-style storage: the on-disk value is one byte longer than Val
+		cb.ItemValLength = func(c *Collection, i *Item) int { return len(i.Val) + 1 }
+		cb.ItemValWrite = func(c *Collection, i *Item, w io.WriterAt, offset int64) error {
+			b := append(append([]byte(nil), i.Val...), 0xAA)
+			_, err := w.WriteAt(b, offset)
+			return err
+		}
+		cb.ItemValRead = func(c *Collection, i *Item, r io.ReaderAt, offset int64, valLength uint32) error {
+			b := make([]byte, valLength)
+			if _, err := r.ReadAt(b, offset); err != nil {
+				return err
+			}
+			i.Val = b[:valLength-1]
+			return nil
+		}
+	}
 	if mask&cbKeyCompareNil != 0 {
 		// the documented way of saying "use the default comparator"
 		cb.KeyCompareForCollection = func(name string) KeyCompare { return nil }
@@ -92,14 +110,18 @@ func vSameItem(label string, a, b *Item, wv bool) {
 }
 
 func vH_C17_rel() {
-	masks := []int{0xff, cbAlloc, cbValLength, cbValWrite, cbValRead, cbBeforeWrite, cbAfterRead, cbKeyCompare, cbRefs, cbKeyCompareNil}
+	masks := []int{0xff, cbAlloc, cbValLength, cbValWrite, cbValRead, cbBeforeWrite, cbAfterRead, cbKeyCompare, cbRefs, cbKeyCompareNil, cbPadded}
 	var mask int
 	if vParam("allsubsets") == 1 {
 		mask = vChoose("callback-subset", 1, 511)
+		if vChoose("padded-too", 0, 1) == 1 {
+			mask = cbPadded
+		}
 	} else {
 		mask = masks[vChoose("callback-config", 0, len(masks)-1)]
 	}
 	vTraceInt("callbacks", mask)
+	padded := mask&cbPadded != 0
 	var side [2]vRelSide
 	for k := 0; k < 2; k++ {
 		f := &vFile{}
@@ -185,12 +207,31 @@ func vH_C17_rel() {
 			vSameItem("max", a, b, false)
 			n0, b0, _ := side[0].c.GetTotals()
 			n1, b1, _ := side[1].c.GetTotals()
-			vAssert("totals:same", vAnd(n0 == n1, b0 == b1))
+			if padded {
+				// self-consistency: the byte total counts the callback's lengths
+				vAssert("totals:consistent-with-ItemValLength", vAnd(n0 == n1, b1 == b0+n0))
+			} else {
+				vAssert("totals:same", vAnd(n0 == n1, b0 == b1))
+			}
 		}
 	}
 	// final: both flushed files are identical byte for byte and decode to the model
 	for k := 0; k < 2; k++ {
 		vAssert("final:flush", side[k].s.Flush() == nil)
+	}
+	if padded {
+		n0, b0, _ := side[0].c.GetTotals()
+		n1, b1, _ := side[1].c.GetTotals()
+		vAssert("final:totals-consistent-with-ItemValLength", vAnd(n0 == n1, b1 == b0+n0))
+		seen, err := vAscendAll(side[1].c, true)
+		vAssert("final:padded-visit", vAnd(err == nil, len(seen) == len(m.ents)))
+		if len(seen) == len(m.ents) {
+			for i := range seen {
+				vAssert("final:padded-item", vAnd(vBytesEq(seen[i].key, m.ents[i].key), vBytesEq(seen[i].val, m.ents[i].val)))
+			}
+		}
+		vCover("done")
+		return
 	}
 	vAssert("final:file-length", len(side[0].f.data) == len(side[1].f.data))
 	if len(side[0].f.data) == len(side[1].f.data) {
@@ -240,7 +281,17 @@ func vH_C18_iter() {
 	got := 0
 	closed := false
 	exhausted := false
+	mutateAt := -1
+	if vParam("itermut") == 1 {
+		mutateAt = vChoose("mutate-after-call", -1, calls-1)
+	}
 	for k := 0; k < calls; k++ {
+		if k == mutateAt+0 && mutateAt >= 0 {
+			// the consumer mutates while the iterator is open: the version the
+			// producer pinned is superseded
+			vTrace("Set(during-iteration)")
+			vAssert("iter-mutation-ok", c.SetItem(&Item{Key: []byte{0x7f, 0x01}, Val: []byte{1}, Priority: 3}) == nil)
+		}
 		if vChoose("close-now", 0, 1) == 1 {
 			vTrace("Close")
 			it.Close()
